@@ -39,7 +39,7 @@ def coq_case(c):
 
 def evaluate(ctx, cases, name="cases"):
     """returns (bad_model, bad_ref) index sets or None"""
-    CH = 250
+    CH = max(20, min(300, -(-len(cases) // vlib.NCPU)))
     jobs, offs = [], []
     for off in range(0, len(cases), CH):
         lit = vlib.coq_list(cases[off:off + CH], coq_case)
@@ -60,27 +60,36 @@ def rerun(ctx, binp, cases):
     return ctx.run_json([binp, "timers-run"], input=inp)
 
 
+def _smallest_failing(ctx, binp, cands):
+    if not cands:
+        return None
+    out = rerun(ctx, binp, cands)
+    r = evaluate(ctx, out, "min")
+    if r is None:
+        return None
+    # prefer inputs that contradict the property itself (reference) over model-only disagreements
+    bad = sorted(r[0] | r[1], key=lambda i: (i not in r[1], len(out[i]["ops"]), len(out[i]["deltas"] or []), out[i]["ne"], i))
+    return out[bad[0]] if bad else None
+
+
 def minimise(ctx, binp, c):
-    """drop ops / handlers while the case still disagrees with model or reference"""
-    for _ in range(20):
-        cands = []
-        for i in range(len(c["ops"])):
-            cands.append(dict(c, ops=c["ops"][:i] + c["ops"][i + 1:]))
-        for i in range(len(c["deltas"] or [])):
-            cands.append(dict(c, deltas=c["deltas"][:i] + c["deltas"][i + 1:]))
-        if c["ne"] > 1:
-            cands.append(dict(c, ne=c["ne"] - 1))
-        cands = [x for x in cands if x["ops"]]
-        if not cands:
+    """smallest sub-history / handler subset that still disagrees with model or reference (a few batched rounds)"""
+    import itertools
+    for _ in range(6):           # greedy single drops while the history is long
+        if len(c["ops"]) <= 8:
             break
-        out = rerun(ctx, binp, cands)
-        r = evaluate(ctx, out, "min")
-        if r is None:
+        n = _smallest_failing(ctx, binp, [dict(c, ops=c["ops"][:i] + c["ops"][i + 1:]) for i in range(len(c["ops"]))])
+        if n is None:
             break
-        bad = sorted(r[0] | r[1])
-        if not bad:
-            break
-        c = out[bad[0]]
+        c = n
+    if len(c["ops"]) <= 8:       # all sub-histories at once
+        idx = range(len(c["ops"]))
+        subs = [dict(c, ops=[c["ops"][i] for i in comb]) for k in range(1, len(c["ops"])) for comb in itertools.combinations(idx, k)]
+        c = _smallest_failing(ctx, binp, subs) or c
+    ds = c["deltas"] or []
+    hs = [dict(c, deltas=[ds[i] for i in comb], ne=ne) for k in range(0, len(ds) + 1) for comb in itertools.combinations(range(len(ds)), k)
+          for ne in sorted({c["ne"], min(c["ne"], 1), 0}) if not (k == len(ds) and ne == c["ne"])]
+    c = _smallest_failing(ctx, binp, hs) or c
     return c
 
 
@@ -120,8 +129,9 @@ def run(ctx):
     bad_model, bad_ref = r
     ctx.tie(not bad_model)   # implementation = model on every history
     ctx.tie(not bad_ref)     # implementation satisfies the theorem right-hand sides
-    for i in sorted(bad_model | bad_ref)[:3]:
-        c = minimise(ctx, binp, cases[i])
+    worst = sorted(bad_model | bad_ref, key=lambda i: (i not in bad_ref, len(cases[i]["ops"]), i))[:2]
+    for n, i in enumerate(worst):
+        c = minimise(ctx, binp, cases[i]) if n == 0 else cases[i]
         r1 = evaluate(ctx, [c], "one") or (set(), set())
         ctx.violation({"case": {"ne": c["ne"], "deltas": c["deltas"], "ops": c["ops"]},
                        "ops_legend": "[0,lastTick,dur]=Reset, [1,curr,0]=UpdateTime",
